@@ -95,7 +95,7 @@ def tight_cases(seed, tier):
 
 
 def cases(seed, tier):
-    yield from families.interleave((shape_cases(seed, tier), 1), (limit_cases(seed, tier), 1), (tight_cases(seed, tier), 1), (general_cases(seed, tier), 4))
+    yield from families.interleave((shape_cases(seed, tier), 1), (limit_cases(seed, tier), 1), (tight_cases(seed, tier), 1), (general_cases(seed, tier), 6))
 
 
 def general_cases(seed, tier):
